@@ -1139,6 +1139,12 @@ class Interp:
                 return bytes(args[0]).decode("utf-8", "replace")
             if c.endswith("Try::branch"):
                 return args[0]
+            if c.endswith("core::convert::From::from") and len(args) == 1 and isinstance(_plain(args[0]), int) and not isinstance(_plain(args[0]), bool):
+                tgt = strip_ty(e.get("ty")) if e.get("ty") else ""
+                if tgt == "char" and 0 <= _ordv(args[0]) <= 0x10FFFF:
+                    return RChar(chr(_ordv(args[0])))
+                if re.fullmatch(r"[ui](8|16|32|64|128|size)", tgt or ""):
+                    return _ordv(args[0])
             if c.endswith("Result::Ok"):
                 return ("Ok", args[0])
             if self.crate is not None and c in self.crate.hir and self.crate.hir[c].get("kind") in ("Fn", "AssocFn"):
